@@ -58,6 +58,12 @@ func genC17(r *Rng, n int, tier string, emit func(Case)) {
 		if r.Chance(1, 2) {
 			files["other.partial/p1"] = mk("other-p1")
 		}
+		// the module's debug() function on a value encoding/json cannot marshal, next to JSON output of a Go value with getters
+		if r.Chance(1, 6) {
+			files[tpl+".partial/asum"] = docOf(codeNode("JSON.stringify(lf)", true, false))
+			files[tpl+".partial/zdump"] = docOf(textNode("dump:"), codeNode("debug(bad, false)", true, false))
+			existing = append(existing, "zdump", "asum", "asum")
+		}
 		// a partial that fails at execution time
 		if r.Chance(1, 6) {
 			files[tpl+".partial/bad"] = docOf(codeNode("x.nope.deeper()", true, true), codeNode("Math.ceil('q')", true, true))
@@ -75,7 +81,8 @@ func genC17(r *Rng, n int, tier string, emit func(Case)) {
 				req = append(req, []string{"nope", "", "../" + tpl, "p1/"}[r.Intn(4)])
 			}
 		}
-		data := J{"x": fmt.Sprintf("<v%d>", r.Intn(100)), "y": r.Intn(50), "cart": J{"n": r.Intn(9), "label": "n/a"}, "crumbs": []interface{}{"Home"}}
+		data := J{"x": fmt.Sprintf("<v%d>", r.Intn(100)), "y": r.Intn(50), "cart": J{"n": r.Intn(9), "label": "n/a"}, "crumbs": []interface{}{"Home"},
+			"lf": J{"__go": "leafy"}, "bad": J{"v": J{"__go": "nan"}}}
 		emit(Case{"kind": "partials", "model_needs_impl": true, "files": files, "tpl": tpl, "req": req, "data": data})
 	}
 }
@@ -93,11 +100,16 @@ func runPartials(c Case) interface{} {
 	if r := eng.Load(""); r.Class != "ok" {
 		return J{"class": r.Class, "msg": r.Msg}
 	}
-	data := c["data"]
+	data := reviveGo(c["data"])
 	tpl := str(c, "tpl")
 	req := strs(c, "req")
 	alone := J{}
+	var names []string
 	for name := range files {
+		names = append(names, name)
+	}
+	sort.Strings(names) // a fixed order: what one standalone render leaves behind (if anything) meets the same successors every time
+	for _, name := range names {
 		alone[name] = eng.Render(context.Background(), name, data)
 	}
 	// requested names that do not exist as files are rendered alone too (expected: notfound)
